@@ -26,6 +26,8 @@ SRC = {
     'midfail': "x = f'{a:{{a:b}}}'\n",
     'fold': "SECONDS = 60 * 60 * 24\nMASK = 0xFF << 8 | 0x0F\nprint(SECONDS, MASK, 1 + 2.0, 5 % 3)\n",
     # the same values with the other numeric type, and the same literal text as bytes: anything memoised by value alone collides
+    'hints': "import typing\ndef check(value: int, other: str = 'x') -> bool:\n    local_value: int = value\n    return typing.get_type_hints(check) and check.__annotations__ and local_value\nprint(check(1))\n",
+    'deep': "x = " + "+".join(["a"] * 120) + "\n",
     'fold2': "SECONDS = 43200.0 * 2\nMASK = 65295.0 + 0\nprint(SECONDS, MASK, 1 + 2, 5.0 % 3, 0.0 * -1, True + True)\n",
     'hoist2': "def many():\n    return [b'long literal one', b'long literal one', b'long literal one', 'bytes literal', 'bytes literal', 'bytes literal', 1, 1, 1, 1, 0, 0, 0, 0, 1.0, 1.0, 1.0, 1.0]\nprint(many())\n",
 }
@@ -48,6 +50,9 @@ CALLS = {
     'hoist': lambda sh: python_minifier.minify(SRC['hoist'], rename_globals=True),
     'fold': lambda sh: python_minifier.minify(SRC['fold']),
     'fold2': lambda sh: python_minifier.minify(SRC['fold2']),
+    'hints': lambda sh: python_minifier.minify(SRC['hints']),
+    'hints+RA': lambda sh: python_minifier.minify(SRC['hints'], remove_annotations=sh['RA']),
+    'deep': lambda sh: python_minifier.minify(SRC['deep']),
     'hoist2': lambda sh: python_minifier.minify(SRC['hoist2'], rename_globals=True),
     'awslambda': lambda sh: python_minifier.awslambda(SRC['rename'], entrypoint='handler'),
     'syntaxerror': lambda sh: python_minifier.minify(SRC['syntaxerror']),
@@ -62,7 +67,7 @@ def describe_shared(sh):
 
 def state_digest():
     """canonical digest of every mutable object reachable from the module globals, class attributes and function defaults of python_minifier.*"""
-    parts = []
+    parts = [interpreter_state()]
     for mname in sorted(sys.modules):
         if not (mname == 'python_minifier' or mname.startswith('python_minifier.')):
             continue
@@ -75,6 +80,15 @@ def state_digest():
                 continue
             parts.append(describe_value('%s.%s' % (mname, k), v, 0))
     return hashlib.sha256(repr(parts).encode('utf-8', 'replace')).hexdigest()[:16], parts
+
+
+def interpreter_state():
+    """process-wide interpreter settings a library call has no business changing"""
+    import os
+    import threading
+    import warnings
+    return ('interpreter', sys.getrecursionlimit(), sys.getswitchinterval(), len(sys.path), tuple(sys.path[:3]), os.getcwd(), sorted(os.environ.items())[:0] or len(os.environ),
+            len(warnings.filters), threading.stack_size(), sys.gettrace() is None, sys.getprofile() is None, getattr(sys, 'get_int_max_str_digits', lambda: 0)())
 
 
 def describe_value(path, v, depth):
